@@ -20,6 +20,7 @@
 #include <datatypes/msg_queue.h>
 #include <distributed/mpi.h>
 #include <log/stats.h>
+#include <verif_hooks.h>
 
 #include <memory.h>
 #include <stdatomic.h>
@@ -276,17 +277,24 @@ simtime_t gvt_phase_run(void)
 void gvt_msg_drain(void)
 {
 	while(thread_phase != thread_phase_idle) { // flush partial gvt algorithm
+		VERIF_TRACE(VT_STAGE, 3, thread_phase, 0, 0);
 		simtime_t current_gvt = gvt_phase_run();
+#ifdef ROOTSIM_VERIF
+		if(current_gvt != 0.0)
+			VERIF_TRACE(VT_GVT_DRAIN, verif_bits(current_gvt), 0, 0, 0);
+#endif
 		// the other threads of this round record it from the main loop: keep the per-thread records aligned
 		if(unlikely(current_gvt != 0.0))
 			stats_on_gvt(current_gvt);
 	}
 
+	VERIF_TRACE(VT_STAGE, 4, thread_phase, 0, 0);
 	if(sync_thread_barrier())
 		mpi_node_barrier();
 	sync_thread_barrier();
 
 	for(int i = 0; i < 2; ++i) { // flush both gvt phases
+		VERIF_TRACE(VT_STAGE, 5, thread_phase, i, 0);
 		gvt_timer = 0;       // this satisfies the timer condition
 		// wait for the completion of the round itself, not for a non-zero value: a computed GVT of 0.0 is
 		// indistinguishable from the "no GVT yet" return value of gvt_phase_run()
